@@ -1,5 +1,5 @@
 (* C01 model driver: one case per line (see props/C01/check.py: model_line), prints
-   "E <energy> S <scale> V <values...> F <fx fy fz per atom...>" in hex floats.  Every case goes through the state
+   "E <energy> S <scale> A <applied force per variable...> V <values...> F <fx fy fz per atom...>" in hex floats.  Every case goes through the state
    model of SuperposModel.v: init_var on the variables as configured, then the case's history of modifycvcs / cvcflags
    events (possibly empty), then energy / values / forces of the state reached *)
 open Model
@@ -148,7 +148,9 @@ let () =
           (* S = the largest single contribution entering any atomic force (conditioning of the sums) *)
           let sc = List.fold_left (fun m (_, ((a, b), c)) -> Float.max m (Float.max (Float.abs a) (Float.max (Float.abs b) (Float.abs c))))
                      0.0 (all_contribs fops pi cf s) in
-          Printf.printf "E %s S %s V %s F %s\n" (hex e) (hex sc) (String.concat " " (List.map hex vs))
+          (* A = colvar::f of every variable (the sum of the biases' forces on it: what outputAppliedForce prints) *)
+          let afs = List.mapi (fun i _ -> var_force fops pi cf s (nat_of_int i)) cf.cf_vars in
+          Printf.printf "E %s S %s A %s V %s F %s\n" (hex e) (hex sc) (String.concat " " (List.map hex afs)) (String.concat " " (List.map hex vs))
             (String.concat " " (List.map (fun ((a, b), c) -> Printf.sprintf "%s %s %s" (hex a) (hex b) (hex c)) fs))
         with Failure m -> Printf.printf "ERR %s\n" m | Invalid_argument m -> Printf.printf "ERR %s\n" m)
       end
